@@ -757,8 +757,8 @@ package sse
 //@   ensures id_unchanged_without_dispatch: (forall(x, old(ncalls()), ncalls(), !isdispatch(x))) ==> c.lastEventID == old(c.lastEventID)
 //@   ensures id_is_the_last_dispatched_events: forall(x, old(ncalls()), ncalls(), isdispatch(x) && (forall(y, x+1, ncalls(), !isdispatch(y))) ==> c.lastEventID == dispatched(x).LastEventID)
 //@   ensures registry_untouched: connok(c)
-//@   ensures sends_no_request: forall(x, old(ncalls()), ncalls(), !iscall(x, "Do") && !iscall(x, "ResponseValidator") && !iscall(x, "GetBody"))
-//@   invariant read.0 sends_no_request: forall(x, old(ncalls()), ncalls(), !iscall(x, "Do") && !iscall(x, "ResponseValidator") && !iscall(x, "GetBody"))
+//@   ensures sends_no_request: forall(x, old(ncalls()), ncalls(), !iscall(x, "Do") && !iscall(x, "ResponseValidator") && !iscall(x, "GetBody") && !iscall(x, "OnRetry") && !iscall(x, "TimerReset"))
+//@   invariant read.0 sends_no_request: forall(x, old(ncalls()), ncalls(), !iscall(x, "Do") && !iscall(x, "ResponseValidator") && !iscall(x, "GetBody") && !iscall(x, "OnRetry") && !iscall(x, "TimerReset"))
 //@   invariant read.0 no_error_yet: readErr == nil && c != nil && connok(c)
 //@   invariant read.0 parser_alive: p != nil && p.fieldScanner != nil && p.inputScanner != nil && !p.fieldScanner.keepComments
 //@   invariant read.0 id_unchanged_without_dispatch: (forall(x, old(ncalls()), ncalls(), !isdispatch(x))) ==> c.lastEventID == old(c.lastEventID)
@@ -810,3 +810,26 @@ package sse
 //@   ensures id_kept_unless_events_dispatched: (forall(x, old(ncalls()), ncalls(), !isdispatch(x))) ==> c.lastEventID == old(c.lastEventID)
 //@   ensures id_is_the_last_dispatched_events: forall(x, old(ncalls()), ncalls(), isdispatch(x) && (forall(y, x+1, ncalls(), !isdispatch(y))) ==> c.lastEventID == dispatched(x).LastEventID)
 //@   ensures becomes_retry: c.isRetry && connok(c)
+//@   ensures validator_sees_the_response_of_the_request: forall(x, old(ncalls()), ncalls(), iscall(x, "ResponseValidator") ==> forall(y, x+1, ncalls(), !isdo(y)))
+//@   ensures no_retry_bookkeeping_inside: forall(x, old(ncalls()), ncalls(), !iscall(x, "OnRetry") && !iscall(x, "TimerReset"))
+
+//@ func Backoff.new
+//@   requires b != nil
+//@   ensures starts_at_the_initial_interval: result.b == b && result.interval == b.InitialInterval && result.numRetries == 0 && result.rng != nil
+
+//@ func Connection.Connect
+//@   requires c != nil && connok(c) && c.request != nil && c.request.Header != nil && c.client.HTTPClient != nil && c.client.ResponseValidator != nil
+//@   assumepre backoffController.next the controller holds a pointer into c.client.Backoff (an interior pointer stored in a struct field), whose target the heap model does not relate to the configuration
+//@   modifies c.isRetry, c.lastEventID, c.request.Body, mapcell(c.request.Header)
+//@   ensures never_nil: result != nil
+//@   ensures id_kept_unless_events_dispatched: (forall(x, old(ncalls()), ncalls(), !isdispatch(x))) ==> c.lastEventID == old(c.lastEventID)
+//@   ensures id_is_the_last_dispatched_events: forall(x, old(ncalls()), ncalls(), isdispatch(x) && (forall(y, x+1, ncalls(), !isdispatch(y))) ==> c.lastEventID == dispatched(x).LastEventID)
+//@   ensures validator_rejection_ends_connect: forall(x, old(ncalls()), ncalls(), iscall(x, "ResponseValidator") && cret(x, "ResponseValidator", 0) != nil ==> forall(y, x+1, ncalls(), !isdo(y)))
+//@   ensures on_retry_precedes_each_timer_reset: c.client.OnRetry != nil ==> forall(x, old(ncalls()), ncalls(), iscall(x, "TimerReset") ==> x > old(ncalls()) && iscall(x-1, "OnRetry") && carg(x-1, "OnRetry", 1) == carg(x, "TimerReset", 0))
+//@   ensures on_retry_only_before_a_wait: forall(x, old(ncalls()), ncalls(), iscall(x, "OnRetry") ==> x+1 < ncalls() && iscall(x+1, "TimerReset"))
+//@   invariant 0 state: c != nil && connok(c) && c.request != nil && c.request.Header != nil && t != nil
+//@   invariant 0 id_kept_unless_events_dispatched: (forall(x, old(ncalls()), ncalls(), !isdispatch(x))) ==> c.lastEventID == old(c.lastEventID)
+//@   invariant 0 id_is_the_last_dispatched_events: forall(x, old(ncalls()), ncalls(), isdispatch(x) && (forall(y, x+1, ncalls(), !isdispatch(y))) ==> c.lastEventID == dispatched(x).LastEventID)
+//@   invariant 0 on_retry_precedes_each_timer_reset: c.client.OnRetry != nil ==> forall(x, old(ncalls()), ncalls(), iscall(x, "TimerReset") ==> x > old(ncalls()) && iscall(x-1, "OnRetry") && carg(x-1, "OnRetry", 1) == carg(x, "TimerReset", 0))
+//@   invariant 0 no_validator_rejection_so_far: forall(x, old(ncalls()), ncalls(), iscall(x, "ResponseValidator") ==> cret(x, "ResponseValidator", 0) == nil)
+//@   invariant 0 on_retry_only_before_a_wait: forall(x, old(ncalls()), ncalls(), iscall(x, "OnRetry") ==> x+1 < ncalls() && iscall(x+1, "TimerReset"))
